@@ -99,13 +99,41 @@ class _Obj:
     pass
 
 
+EXTRA_FRAMES = 1
+
+
+def make_video_reader(n_frames, fail, start, end):
+    """real VideoReader.__init__ (Thread base-class initialiser stubbed, thread never started) on a fake video of n_frames"""
+    import threading
+    import sleap_nn.data.providers as prov
+    real = threading.Thread.__init__
+    threading.Thread.__init__ = lambda self, *a, **k: None  # the thread object is never started here; its base-class set-up is irrelevant and slow to trace
+    try:
+        return prov.VideoReader(FakeVideo(n_frames, fail), None, start, end)
+    finally:
+        threading.Thread.__init__ = real
+
+
+def range_resolution(n: int, start: int, end: int, start_none: bool, end_none: bool):
+    """-> (ok, reason): the range the real constructor resolves is [start or 0, end or n) exactly, for given and omitted bounds"""
+    r = make_video_reader(n, -1, None if start_none else start, None if end_none else end)
+    lo = 0 if start_none else start
+    hi = n if end_none else end
+    if r.start_idx != lo or r.end_idx != hi:
+        return False, f"requested ({None if start_none else start}, {None if end_none else end}) on {n} frames resolved to ({r.start_idx}, {r.end_idx}), expected ({lo}, {hi})"
+    if r.total_len() != hi - lo:
+        return False, f"total_len {r.total_len()} != {hi - lo}"
+    return True, "ok"
+
+
 def simulate(kind: str, start: int, end: int, Q: int, B: int, fail: int, sched: List[bool], max_steps: int = 400):
     co = coroutines()
     reader = _Obj()
     reader.frame_buffer = None
     if kind == "video":
-        reader.video = FakeVideo(end, fail)
-        reader.start_idx, reader.end_idx = start, end
+        # the requested range goes through the REAL constructor; the video is one frame longer than the requested end, so a range
+        # that is resolved wrongly (e.g. replaced by the video length) shows as extra frames
+        reader = make_video_reader(end + EXTRA_FRAMES, fail, start, end)
         prod = co["video"](reader)
     else:
         reader.labels = FakeLabels(start, end, fail)
